@@ -10,8 +10,9 @@
                                      subscriber set is stored; keys are unique
       matching_subs s c ch           the subscriptions of c that match channel ch
       deliveries_to c l              the entries of a receiver list addressed to c
-      publish_with choice            publish, where [choice] is the implementation's pick of the
-                                     reported pattern (HashMap order), followed when admissible *)
+      is_matching s c ch t           t = None: c is subscribed to channel ch; t = Some p: c is
+                                     subscribed to pattern p and p matches ch *)
+From Coq Require Import Sorting.Permutation.
 From Ferrous Require Import Base.Bytes Model.Types Model.PubSub Proofs.PsGlobFacts Proofs.PubSubFacts.
 Open Scope Z_scope.
 
@@ -19,7 +20,7 @@ Open Scope Z_scope.
 Theorem c14_maps_consistent : forall ops, Inv (ps_run ps_init ops).
 Proof. intros ops. apply run_inv. exact Inv_init. Qed.
 
-Theorem c14_maps_consistent_step : forall choice s o, Inv s -> Inv (snd (ps_step choice s o)).
+Theorem c14_maps_consistent_step : forall s o, Inv s -> Inv (snd (ps_step s o)).
 Proof. exact step_inv. Qed.
 
 (** no connection entry without subscriptions, provided SUBSCRIBE / PSUBSCRIBE carry at least one
@@ -45,55 +46,42 @@ Theorem c14_glob_class_refuted :
   ps_match (bs "[n]ews") (bs "news") = false /\ ps_match (bs "[n]ews") (bs "[n]ews") = true.
 Proof. vm_compute. split; reflexivity. Qed.
 
-(** 3. publish: to nobody else, once per connection, to every connection with a matching
-    subscription - for every admissible pick of the reported pattern *)
-Theorem c14_publish_nobody_else : forall choice s ch c t,
-  Inv s -> In (c, t) (publish_with choice s ch) -> is_matching s c ch t.
-Proof. exact publish_with_sound. Qed.
+(** 3. delivery (pubsub.rs publish after the repair 4d06fbe): the receiver list of PUBLISH is
+    exactly the set of (connection, matching subscription) pairs, each once - one `message` for a
+    channel subscription, one `pmessage` per matching pattern, to nobody else; the reply of PUBLISH
+    is its length.  (On the code before 4d06fbe this was refuted: one entry per connection.) *)
+Theorem c14_delivery : forall s ch,
+  Inv s ->
+  NoDup (publish s ch) /\ forall c t, In (c, t) (publish s ch) <-> is_matching s c ch t.
+Proof. intros s ch HI. split; [apply publish_NoDup; exact HI | intros; apply In_publish; exact HI]. Qed.
 
-Theorem c14_publish_once_per_connection : forall choice s ch,
-  NoDup (map fst (publish_with choice s ch)).
-Proof. intros. rewrite publish_with_fst. apply publish_nodup. Qed.
+(** per connection: what it receives is a permutation of its matching subscriptions
+    (HashMap iteration order of the pattern map is not specified) *)
+Theorem c14_delivery_per_connection : forall s ch c,
+  Inv s -> Permutation (deliveries_to c (publish s ch)) (matching_subs s c ch).
+Proof. exact delivery_full. Qed.
 
-Theorem c14_publish_reaches_every_subscriber : forall choice s ch c,
-  Inv s -> has_matching s c ch -> In c (map fst (publish_with choice s ch)).
-Proof. intros. rewrite publish_with_fst. apply publish_complete; assumption. Qed.
-
-(** 4. delivery = the set of (connection, matching subscription) pairs.
-    Full statement (FALSE of this code, see c14_delivery_refuted):
-      forall choice s ch c, Inv s ->
-        Permutation (deliveries_to c (publish_with choice s ch)) (matching_subs s c ch).
-    Proved part: connections with at most one matching subscription. *)
-Theorem c14_delivery_partial : forall choice s ch c,
-  Inv s -> (length (matching_subs s c ch) <= 1)%nat ->
-  deliveries_to c (publish_with choice s ch) = matching_subs s c ch.
-Proof. exact delivery_partial. Qed.
-
-(** F-14a: subscribed to news, n*, ne*: three matching subscriptions, one delivery, reply 1 *)
-Theorem c14_delivery_refuted :
-  exists ops ch c, let s := ps_run ps_init ops in
-    length (matching_subs s c ch) = 3%nat /\
-    length (deliveries_to c (publish s ch)) = 1%nat /\ length (publish s ch) = 1%nat.
-Proof.
-  exists [OSub 1 [bs "news"]; OPSub 1 [bs "n*"; bs "ne*"]], (bs "news"), 1.
-  vm_compute. repeat split.
-Qed.
+(** the former witness of F-14a now gets its three deliveries *)
+Theorem c14_delivery_witness :
+  let s := ps_run ps_init [OSub 1 [bs "news"]; OPSub 1 [bs "n*"; bs "ne*"]] in
+  length (matching_subs s 1 (bs "news")) = 3%nat /\ length (publish s (bs "news")) = 3%nat.
+Proof. vm_compute. split; reflexivity. Qed.
 
 (** 5. after unsubscribing nothing more is received (until the client subscribes again) *)
-Theorem c14_after_unsubscribe_nothing : forall choice s c names ch ops,
+Theorem c14_after_unsubscribe_nothing : forall s c names ch ops,
   Inv s -> In ch names -> Forall (no_resub_ch c ch) ops ->
-  ~ In (c, None) (publish_with choice (ps_run (snd (unsubscribe s c (Some names))) ops) ch).
+  ~ In (c, None) (publish (ps_run (snd (unsubscribe s c (Some names))) ops) ch).
 Proof. exact after_unsubscribe_nothing. Qed.
 
-Theorem c14_after_punsubscribe_nothing : forall choice s c names p ch ops,
+Theorem c14_after_punsubscribe_nothing : forall s c names p ch ops,
   Inv s -> In p names -> Forall (no_resub_pat c p) ops ->
-  ~ In (c, Some p) (publish_with choice (ps_run (snd (punsubscribe s c (Some names))) ops) ch).
+  ~ In (c, Some p) (publish (ps_run (snd (punsubscribe s c (Some names))) ops) ch).
 Proof. exact after_punsubscribe_nothing. Qed.
 
 (** disconnect cleanup (unsubscribe_all) *)
-Theorem c14_after_unsubscribe_all_nothing : forall choice s c ch ops,
+Theorem c14_after_unsubscribe_all_nothing : forall s c ch ops,
   Inv s -> Forall (not_sub_by c) ops ->
-  ~ In c (map fst (publish_with choice (ps_run (unsubscribe_all s c) ops) ch)).
+  ~ In c (map fst (publish (ps_run (unsubscribe_all s c) ops) ch)).
 Proof. exact after_unsubscribe_all_nothing. Qed.
 
 (** 6. acknowledgements: a multi-name SUBSCRIBE is the sequence of single ones, and a single one
@@ -136,7 +124,8 @@ Theorem c14_ack_punsubscribe : forall s c names info,
     r_count r = len (bremove_all (firstn (S k) names) (pat_subs s c)) + len (chan_subs s c).
 Proof. exact punsubscribe_acks. Qed.
 
-(** F-05d: without an entry there is no acknowledgement at all *)
+(** F-05d, manager level: without an entry PubSubManager returns no result; since 68e2e20 the
+    server handlers answer the confirmations themselves (see c14_srv_unsub_always_acks) *)
 Theorem c14_unsub_no_ack_refuted :
   exists s c names, names <> [] /\ fst (unsubscribe s c (Some names)) = [] /\
                     fst (punsubscribe s c (Some names)) = [].
